@@ -165,7 +165,9 @@ def class_src(name, f) -> str:
         bases = "(_PrivBase, BaseA, BaseB)"
     if "@abc" in f:
         bases = "(ABC, BaseA, BaseB)"
-    ctor = f - {"multi", "@privbase", "@privfirst", "@abc"}
+    if "@abconly" in f:
+        bases = "(ABC)"
+    ctor = f - {"multi", "@privbase", "@privfirst", "@abc", "@abconly"}
     return (f"class {name}{bases}:\n    ok: int\n\n    def __init__({params_src(ctor, 'self')}):\n        ...\n\n"
             f"    def m(self, z: int) -> int:\n        ...\n")
 
